@@ -258,6 +258,15 @@ class Exec:
                 return g[e.id]
         if e.id in self.builtins:
             return self.builtins[e.id]
+        # a module-level function of the module the current function lives in (e.g. a helper a refactor introduced): executed from its real source
+        if mod is not None:
+            try:
+                from . import extract as _extract
+                node = _extract.load(mod).find(e.id)
+            except Exception:
+                node = None
+            if isinstance(node, ast.FunctionDef):
+                return Closure(node, Env(), e.id, cls=None, module=mod)
         hook = getattr(self, 'unresolved_hook', None)
         if hook is not None:
             r = hook(e.id)
@@ -1043,6 +1052,8 @@ class Exec:
         if isinstance(it, OptV):
             self.implicit('iterate None', z3.Not(self.zbool(it.isnone)), 'TypeError')
             it = it.val
+        if it is None:
+            raise ExcSig('TypeError', "'NoneType' object is not iterable")
         if isinstance(it, (list, tuple)):
             return list(it)
         if isinstance(it, (set, frozenset)):
